@@ -197,25 +197,12 @@ def is_key_param(clos, e):
 
 def absence_edges(clos, lookup_bi):
     """(switch block, target when absent, target when present) for the test of the lookup result."""
-    for sb in clos.reachable():
-        tt = clos.blocks[sb]["term"]
-        if tt["k"] != "SwitchInt":
-            continue
-        e = clos.trace(tt["discr"])
-        x = strip_refs(e)
-        if x[0] == "call" and x[1] and x[1]["path"] in ("std::option::Option::<T>::is_none", "std::option::Option::<T>::is_some"):
-            r = strip_refs(x[2][0])
-            if r[0] == "call" and r[3] == lookup_bi:
-                is_none = x[1]["path"].endswith("is_none")
-                return sb, bool_edge(clos, sb, is_none), bool_edge(clos, sb, not is_none)
-        if e[0] == "discr":
-            r = strip_refs(e[1])
-            if r[0] == "call" and r[3] == lookup_bi:
-                a = switch_edges_for_variant(clos, sb, "None")
-                pz = switch_edges_for_variant(clos, sb, "Some")
-                if a and pz:
-                    return sb, a[0], pz[0]
-    return None
+    from .core import option_guards
+    g = option_guards(clos, lambda x: x[0] == "call" and x[3] == lookup_bi)
+    if not g:
+        return None
+    sb, t_some, t_none = g[0]
+    return sb, t_none, t_some
 
 
 def counter(ctx, facts, roles, u, clos, sb, absent_tgt, present_tgt, cfg):
